@@ -19,6 +19,42 @@ def corpus():
     return docs
 
 
+def accepted_keys():
+    """For every field of every serialization model: the keys the decoder reads it from (name / alias / every
+    choice of a validation alias, both name and alias when populate_by_name is set) against the one key the
+    generated schema lists for it.  A field read from more than that one key is a document the decoder accepts
+    and the schema does not describe."""
+    import importlib
+    import inspect
+    from pydantic import AliasChoices, AliasPath, BaseModel
+    problems, n = [], 0
+    for modname in ("tys", "ops", "serial_hugr", "testing_hugr", "extension"):
+        mod = importlib.import_module("hugr._serialization." + modname)
+        for cname, cls in inspect.getmembers(mod, inspect.isclass):
+            if not (issubclass(cls, BaseModel) and cls.__module__ == mod.__name__):
+                continue
+            by_name = bool(cls.model_config.get("populate_by_name"))
+            for fname, f in cls.model_fields.items():
+                n += 1
+                va = f.validation_alias
+                if isinstance(va, AliasChoices):
+                    keys = [c if isinstance(c, str) else repr(c) for c in va.choices]
+                elif isinstance(va, AliasPath):
+                    keys = [repr(va)]
+                elif isinstance(va, str):
+                    keys = [va]
+                elif f.alias:
+                    keys = [f.alias]
+                else:
+                    keys = [fname]
+                schema_key = keys[0]
+                if by_name and fname not in keys:
+                    keys.append(fname)
+                if len(keys) != 1 or not isinstance(schema_key, str):
+                    problems.append({"model": f"{modname}.{cname}", "field": fname, "decoder_reads": keys, "schema_lists": schema_key})
+    return n, problems
+
+
 def main():
     from pydantic import ConfigDict
     from hugr._serialization.serial_hugr import SerialHugr
@@ -43,6 +79,9 @@ def main():
                 except Exception:  # noqa: BLE001
                     ok = False
                 out["probes"].append([cfg_name, di, m, ok])
+    nfields, problems = accepted_keys()
+    out["fields_checked"] = nfields
+    out["alias_problems"] = problems
     dest = os.environ.get("VERIF_C17_PROBES")
     if dest:
         json.dump(out, open(dest, "w"))
